@@ -138,11 +138,11 @@ def graphs(draw, max_edges=8, features=None):
             edges.append(cj)
     g = dict(srcs=srcs, edges=edges, pools=pools)
     if f['dyndep'] is True or (f['dyndep'] == 'some' and draw(st.integers(0, 3)) == 3):
-        add_dyndep(draw, g, f.get('dd_validation', True))
+        add_dyndep(draw, g, f.get('dd_validation', True), f.get('dd_force_chain', False))
     return g
 
 
-def add_dyndep(draw, g, f_dd_validation=True):
+def add_dyndep(draw, g, f_dd_validation=True, force_chain=False):
     """binds 1-3 statements to a dyndep file (a source, or produced by a new first statement from a source): the file adds
     implicit inputs (sources / earlier outputs, incl. implicit outputs another bound statement gets from the same
     file), implicit outputs and restat"""
@@ -150,7 +150,7 @@ def add_dyndep(draw, g, f_dd_validation=True):
     cand = [i for i, e in enumerate(edges) if not e['phony'] and not e['generator']]
     if not cand:
         return
-    ndd = draw(st.integers(1, 2))
+    ndd = 2 if force_chain else draw(st.integers(1, 2))
     g['dd_files'] = {}
     producers = []
     for d in range(ndd):
@@ -159,7 +159,7 @@ def add_dyndep(draw, g, f_dd_validation=True):
         bound = [i for i in sorted(bound) if not edges[i].get('dd')]
         if not bound:
             continue
-        produced = draw(st.booleans())
+        produced = True if force_chain else draw(st.booleans())
         g['dd_files'][dd] = dict(produced=produced)
         new_outs = []
         for i in bound:
@@ -209,7 +209,7 @@ def add_dyndep(draw, g, f_dd_validation=True):
         edges.insert(0, pe)
     # chained two levels deep: the second dyndep file is made from an output of a statement that is bound to the first one,
     # so it can only be produced (and the statements bound to it only be completed) after the first file has been loaded
-    if len(producers) == 2 and draw(st.integers(0, 1)) == 1:
+    if len(producers) == 2 and (force_chain or draw(st.integers(0, 1)) == 1):
         pe1 = [x for x in producers if x['outs'] == ['dd1']]
         b0 = [i for i, x in enumerate(edges) if x.get('dd') == 'dd0']
         b1 = [i for i, x in enumerate(edges) if x.get('dd') == 'dd1']
